@@ -51,6 +51,13 @@ def node_roots(n: Node) -> List[ast.AST]:
     return [a]
 
 
+@dataclass
+class TemplateReturn:
+    id: int  # node at which the template expression is written (resolve its holes here)
+    ast: ast.stmt  # the return statement (for locations)
+    value: ast.JoinedStr
+
+
 class FV:
     """Everything the rules need to know about one function (optionally for a concrete `self` class)."""
 
@@ -115,6 +122,48 @@ class FV:
         for n in self.cfg.nodes:
             if n.kind == "stmt":
                 yield n, n.ast
+
+    # ------------------------------------------------------------- return values
+    def return_nodes(self) -> List[Node]:
+        return [n for n in self.cfg.nodes if n.kind == "stmt" and isinstance(n.ast, ast.Return) and n.ast.value is not None]
+
+    def returns(self) -> List[Tuple[Node, ast.AST]]:
+        """[(return node, resolved value term)]"""
+        return [(n, self.res.resolve(n.ast.value, n.id)) for n in self.return_nodes()]
+
+    def template_returns(self) -> List["TemplateReturn"]:
+        """Return statements whose value is (a temporary holding) an f-string template."""
+        out = []
+        for n in self.return_nodes():
+            raw, at = self.def_expr(n.ast.value, n.id)
+            if isinstance(raw, ast.JoinedStr):
+                out.append(TemplateReturn(at, n.ast, raw))
+        return out
+
+    def def_expr(self, expr: ast.AST, at: int, depth: int = 0) -> Tuple[ast.AST, int]:
+        """Follow plain copies `x = y` / single definitions `x = <expr>` back to the defining *raw* expression.
+        Returns (raw expression, node id where it is written)."""
+        if isinstance(expr, ast.Name) and depth < 8:
+            defs = self.cfg.reaching()[at].get(expr.id, frozenset())
+            if len(defs) == 1:
+                d = next(iter(defs))
+                dn = self.cfg.nodes[d]
+                if dn.kind == "stmt" and isinstance(dn.ast, ast.Assign) and len(dn.ast.targets) == 1 and isinstance(dn.ast.targets[0], ast.Name):
+                    return self.def_expr(dn.ast.value, d, depth + 1)
+                if dn.kind == "stmt" and isinstance(dn.ast, ast.AnnAssign) and dn.ast.value is not None and isinstance(dn.ast.target, ast.Name):
+                    return self.def_expr(dn.ast.value, d, depth + 1)
+        return expr, at
+
+    def alias_root(self, expr: ast.AST, at: int, depth: int = 0) -> ast.AST:
+        """Follow plain name-to-name copies only: `tmp = volumes; return tmp` -> Name('volumes')."""
+        if isinstance(expr, ast.Name) and depth < 8:
+            defs = self.cfg.reaching()[at].get(expr.id, frozenset())
+            if len(defs) == 1:
+                d = next(iter(defs))
+                dn = self.cfg.nodes[d]
+                if dn.kind == "stmt" and isinstance(dn.ast, ast.Assign) and len(dn.ast.targets) == 1 and isinstance(dn.ast.targets[0], ast.Name) and isinstance(dn.ast.value, ast.Name):
+                    return self.alias_root(dn.ast.value, d, depth + 1)
+        return expr
 
     # ------------------------------------------------------------------ facts
     def facts_at(self, node: int) -> List[Tuple[ast.AST, bool, int]]:
